@@ -219,3 +219,41 @@ prop(
         "the harness runs with debug assertions on (as the test-suite does); the model's debug_assert!s are faults, and the theorems show they never fire inside the contracts",
     ],
 )
+
+# ---- agentH: frame-level proofs about Model.FrameDecoder (engine dec as is) ----
+_FRAME_MODELLED = ("FrameDecoder / FrameDecoderState / BlockDecoder / execute_sequences / DecodeBuffer (abstract content) / "
+                   "StreamingDecoder::read are hand-written statement-by-statement mirrors of the Rust (Zstd/Model/FrameDecoder.lean); "
+                   "constants and guard operators (MAX_BLOCK_SIZE, block-size guard, window guards, magic numbers) are extracted from the source text on every run; "
+                   "the mirror is tied to the code by engine dec (real FrameDecoder/StreamingDecoder under generated driver programs, every observable compared after every operation)")
+
+prop(
+    "C05",
+    level_text="Theorems for all states, sources, strategies and read sizes (no bound): one block adds at most 131072 bytes to the decode buffer on the Ok path and on every error path (block_growth; through the four guards extracted from the source text — block header size, literals Regenerated_Size, running seq_sum before each sequence, trailing literals — operator and constant, anchored up to the opening brace); a compressed block is only accepted if literals+matches <= 128 KiB and then grew the buffer by exactly seq_sum (the assert cannot fire); decode_blocks(UptoBytes n) adds <= n+131072, UptoBlocks k <= max(k,1)*131072; collect leaves <= window; documented loop and StreamingDecoder::read stay <= window+n+131072 for ever; literals scratch <= 131072.",
+    engines=[{"name": "dec"}, {"name": "hostile"}, {"name": "mem"}],
+    modelled=_FRAME_MODELLED,
+    assumptions=["buffer length (DecodeBuffer::len) stands for memory; capacity <= 2*len+2 is C04's cap_bound", "scratch vectors other than the literals buffer (block content <= 128 KiB by the header guard, sequences <= 2^17 entries) are bounded by format maxima, not by these theorems"],
+)
+
+prop(
+    "C06",
+    level_text="Theorems for all states, sink scripts, ring splits, sources and budgets (no bound): every drain path hands out exactly the first `written` buffered bytes and keeps exactly the rest, also when the sink stops early or fails (drainToSink_exact), the second ring segment is only offered after a complete first write; for total-budget sinks the outcome is independent of the ring split; unfinished frames retain the window under every drain; a match / a whole block's sequence execution appends the same bytes with or without already-drained bytes in front when offsets <= window <= retained (executeSequences_drop); decode_from_to reports exactly the counter advance, never more than it was given (F2 branch included); decode_blocks hands back exactly the unread suffix; schedule independence: a decoder drained in any way and its never-drained twin decode every block / every decode_blocks call / every decode_from_to chunk identically (twins again), StreamingDecoder::read is a program of decode_blocks+read calls; and for EVERY frame the Spec accepts and EVERY documented program of drain and decode_blocks calls: no call fails, delivered bytes (= hasher input) followed by buffered bytes are a prefix of the content, all of it once the last block is in, consumed = frame length, stored checksum = the frame's (valid_frame_any_schedule; model with the Spec's entropy decoders as stand-ins).",
+    engines=[{"name": "dec"}, {"name": "hostile"}],
+    modelled=_FRAME_MODELLED,
+    assumptions=["a Write implementation never reports more bytes than it was given", "the ring's first segment is empty only if the ring is empty (C04)"],
+)
+
+prop(
+    "C08",
+    level_text="Theorems for all states, operations, sink scripts and ring splits (no bound): every drain path feeds the hasher exactly the bytes it hands out; decode operations never touch the hasher; reset re-seeds it; hence after any interleaving of collect/read/collect_to_writer/decode_blocks/decode_from_to/StreamingDecoder::read the hasher input is the concatenation of everything delivered since the reset and get_calculated_checksum = low32(XXH64(seed 0)) of exactly those bytes; stated for an abstract streaming hash (only H(H(s,a),b)=H(s,a++b) is used); for every frame the Spec accepts and every documented program that finishes and drains it, calculated = low32(XXH64(content)) = the checksum stored in the frame (valid_frame_checksums_agree).",
+    engines=[{"name": "dec"}],
+    modelled=_FRAME_MODELLED,
+    assumptions=["twox-hash's streaming XxHash64 equals one-shot XXH64 (cross-checked by the harness XXH64 on every delivered stream)", "Spec.Xxh64 is a faithful transcription of XXH64"],
+)
+
+prop(
+    "C10",
+    level_text="Theorems for all states, sources, strategies and cut points (no bound): exact-size reads; a block consumes exactly 3+content_size bytes; decode_blocks hands back exactly the unread suffix and counts exactly the consumed bytes (consumed_exact, from the frame header on); every strict prefix of a completed frame run ends in an error at a reader site (block header, body or checksum), never in a finished state, with the buffered bytes a prefix of the full run's (decodeBlocks_prefix); decode_all never writes past the target, reports a frame done only when finished and fully drained, fails on an undersized target, a truncated skippable frame and trailing garbage; frame boundaries are exact under appended data; decode_all over ANY list of valid frames and skippable frames returns the concatenated contents (decodeAll_concat, induction over the segment list); for every frame the Spec accepts every cut inside the header makes reset fail and every cut behind it makes decode_blocks(All) end in a reader error, unfinished, with the buffered bytes a prefix of the true content (valid_frame_prefix_errors); every loop's fuel suffices (termination).",
+    engines=[{"name": "dec"}, {"name": "hostile"}],
+    modelled=_FRAME_MODELLED,
+    assumptions=["the source is a slice-like reader: read_exact either returns exactly n bytes or UnexpectedEof"],
+)
